@@ -248,6 +248,18 @@ class Catalogue:
                                  ("2nd root field through inline fragment", lambda d, oi=oi, second=second: d.ops[oi].selset.append(InlineFrag(None, [], [copy.deepcopy(second)]))),
                                  ("2nd root field through named fragment", lambda d, oi=oi, second=second, root=root: self._add_frag(d, oi, root, [copy.deepcopy(second)]))]
                 variants.append(("__typename as 2nd root", lambda d, oi=oi: d.ops[oi].selset.append(FieldSel("__typename"))))
+
+                def later_copy(d, oi=oi):
+                    # the valid operation stays; a LATER copy of it (sharing its root-level fragments) selects a 2nd root field
+                    if d.ops[oi].name is None:
+                        d.ops[oi].name = "First_"
+                    op2 = copy.deepcopy(d.ops[oi])
+                    op2.name = "Both_"
+                    op2.selset.append(FieldSel("__typename", alias="secondRoot_"))
+                    d.ops.append(op2)
+                    d.order.append(("op", len(d.ops) - 1))
+                if len(doc.ops) == 1 or op.name:
+                    variants.append(("a later copy of the operation adds __typename as 2nd root", later_copy))
                 for label, fn in variants:
                     self.add("single-root-field", "subscription op#%d: %s" % (oi, label), fn)
         # fields exist
